@@ -104,6 +104,8 @@ async def run_worker(loop, sc: dict, make=None, projector=inmem_projector, signa
     rb = InMemoryBucketBroker(use_result_bucket=True) if sc.get("results") else None
     ab = InMemoryBucketBroker() if sc.get("args_bucket") else None
     conn = Connection(broker, ab, rb)
+    if extra_setup is not None:
+        extra_setup(conn, rec)
     rec.wrap_broker(broker)
     rec.projectors.append(projector(broker))
     if signature is not None:
